@@ -199,6 +199,11 @@ class ExcelCompiler:
             else:
                 return a_cell.value
 
+        # what is saved next to the user's data always comes after it, in
+        # the same order, so that saving again does not change the file
+        for key in ('cycles', 'excel_hash', 'cell_map', 'filename'):
+            extra_data.pop(key, None)
+
         extra_data.update(dict(
             cycles=self.cycles,
             excel_hash=self._excel_file_md5_digest,
